@@ -95,6 +95,9 @@ func (p *pg) setOp() OpSpec {
 	op := OpSpec{Kind: "set", N: n, Var: p.r.Intn(5)}
 	if n == 8 && p.r.Intn(2) == 0 {
 		op.K = 1
+	} else if n > 0 && p.r.Intn(3) == 0 {
+		op.K = 2 // recurring value (see doSet)
+		op.N = []int{8, 30}[p.r.Intn(2)]
 	}
 	return op
 }
